@@ -515,3 +515,88 @@ def tape_map(run, flat, ctx, prefix=None, probes=True):
 def generic_tape(n):
     """A fixed generic (no zeros, no symmetry) excitation used for the linearity probe / per-tape identities."""
     return np.linspace(-1., 1.5, n) + 0.25 + 0.1 * np.cos(3. * np.arange(n))
+
+
+# =====================================================================================
+#          complex response, complex data, real latent parameters (C20 extension)
+# =====================================================================================
+def make_cspec(F, layout, rshape, noise):
+    """linear model d = R s + n with COMPLEX R (nd x n), complex data, real standard-normal s.
+    rshape 'full': Re R, Im R generic;  'rankdef': R = (A + iB) K with a real rank n-1 matrix K (one real latent
+    direction is unobserved), 'wide': (n-1) x n generic complex."""
+    field, keys = LAYOUTS[layout]
+    n = sum(s for _, s, _ in keys)
+    if rshape == "full":
+        Rc = F.matrix(n, n) + 1j * F.matrix(n, n)
+    elif rshape == "wide":
+        Rc = F.matrix(n - 1, n) + 1j * F.matrix(n - 1, n)
+    elif rshape == "rankdef":
+        K = F.matrix(n, n, rank=n - 1)
+        A, B = np.round(F.matrix(n, n), 2), np.round(F.matrix(n, n), 2)
+        Rc = (A + 1j * B) @ K / 2.
+    else:
+        raise ValueError(rshape)
+    nd = Rc.shape[0]
+    nvar = [float(noise)] * nd if not isinstance(noise, str) else F.pos(nd, 0.1, 2.0)
+    spec = dict(name="%s|c-%s|%s|%s" % (layout, rshape, "+".join("lin" for _ in keys), noise), field=bool(field),
+                keys=[[k, s, kd] for k, s, kd in keys], nl={k: "lin" for k, _, _ in keys}, amp=None,
+                R=[[float(x) for x in row] for row in Rc.real], Ri=[[float(x) for x in row] for row in Rc.imag],
+                nvar=[float(x) for x in nvar], data=F.vec(nd, -2., 2.), datai=F.vec(nd, -2., 2.),
+                pos={k: F.vec(s) for k, s, _ in keys})
+    return spec
+
+
+class CRef(Ref):
+    """closed forms for the complex-response model through the real-ified system Rr = [Re R; Im R], Nr = diag(N, N):
+       D = (1 + Re(R^H N^-1 R))^-1,  m = D Re(R^H N^-1 d)."""
+
+    def __init__(self, spec):
+        Ref.__init__(self, spec)
+        self.Rc = self.R + 1j * np.array(spec["Ri"], dtype=np.float64).reshape(self.R.shape)
+        self.dc = self.d + 1j * np.array(spec["datai"], dtype=np.float64)
+        self.Rr = np.concatenate([self.Rc.real, self.Rc.imag], axis=0)
+        self.nvr = np.concatenate([self.nvar, self.nvar])
+
+    def cposterior(self, dc=None):
+        dc = self.dc if dc is None else np.asarray(dc)
+        Minfo = self.Rr.T @ (self.Rr / self.nvr[:, None]) + np.eye(self.n)
+        D = np.linalg.inv(Minfo)
+        dr = np.concatenate([dc.real, dc.imag])
+        return D @ (self.Rr.T @ (dr / self.nvr)), D
+
+    def cfilter(self):
+        """n x 2nd matrix: columns = posterior mean for data e_k (k < nd) and i e_k"""
+        _, D = self.cposterior()
+        return D @ (self.Rr.T / self.nvr[None, :])
+
+
+def build_re_cplx(spec, dc=None):
+    import warnings
+    import jax.numpy as jnp
+    import nifty.re as jft
+    quiet_re()
+    ref = CRef(spec)
+    Rc = jnp.asarray(ref.Rc)
+    nvar = jnp.asarray(ref.nvar)
+    keys = [k for k, _, _ in spec["keys"]]
+    sl = dict(ref.sl)
+    if spec["field"]:
+        def fwd(x):
+            return Rc @ getattr(x, "tree", x)
+        pos = jft.Vector(jnp.asarray(np.array(spec["pos"][keys[0]], dtype=np.float64)))
+        dom = jft.ShapeWithDtype((ref.ns,), jnp.float64)
+    else:
+        def fwd(x):
+            x = getattr(x, "tree", x)
+            y = 0.
+            for k in keys:
+                y = y + Rc[:, sl[k]] @ x[k]
+            return y
+        pos = jft.Vector({k: jnp.asarray(np.array(spec["pos"][k], dtype=np.float64)) for k in ref.keys})
+        dom = {k: jft.ShapeWithDtype((ref.size[k],), jnp.float64) for k in ref.keys}
+    data = jnp.asarray(ref.dc if dc is None else np.asarray(dc, dtype=np.complex128))
+    with warnings.catch_warnings():
+        warnings.simplefilter("ignore")
+        g = jft.Gaussian(data, noise_cov_inv=lambda t: t / nvar, noise_std_inv=lambda t: t / jnp.sqrt(nvar))
+        lh = g.amend(fwd, domain=jft.Vector(dom))
+    return dict(lh=lh, pos=pos, ref=ref, fwd=fwd)
